@@ -146,6 +146,9 @@ type FuncSpec struct {
 	// literal inside the first statement (at any depth) whose printed text starts with this
 	// prefix (the task handed to loop.Run, the onClose function of the task loop, a Once.Do)
 	Closure string `json:"closure"`
+	// ClosureRes: the function literal has a result (an option function `func(a *Agent) error`): its body is
+	// translated to `List Eff × R` like a function with a result; "ret" must give the full Lean type
+	ClosureRes bool `json:"closureRes"`
 	// TypeCases: `switch v := x.(type)`: type text of a case (e.g. "*net.UDPAddr") -> Lean
 	// Bool parameter "x has this dynamic type"; cases are tried in source order
 	TypeCases map[string]string `json:"typeCases"`
@@ -1200,7 +1203,8 @@ func main() {
 			for _, a := range fs.Assigns {
 				t.assigns[a] = true
 			}
-			t.effRes = fs.Effects && (fs.Loop || (fs.Closure == "" && l.fd.Type.Results != nil && len(l.fd.Type.Results.List) >= 1))
+			t.effRes = fs.Effects && (fs.Loop || (fs.Closure != "" && fs.ClosureRes) ||
+				(fs.Closure == "" && l.fd.Type.Results != nil && len(l.fd.Type.Results.List) >= 1))
 			var body string
 			func() {
 				defer func() {
